@@ -249,6 +249,9 @@ func Run(cfg hx.Config) (*hx.Meta, error) {
 	if err := runS1(cfg, meta); err != nil {
 		return nil, err
 	}
+	if err := runS1Generic(cfg, meta); err != nil {
+		return nil, err
+	}
 	if err := runE2E(cfg, meta); err != nil {
 		return nil, err
 	}
@@ -524,9 +527,17 @@ var e2ePool = []e2eType{
 	// same type name, same package name, two import paths (p/x/model, p/y/model)
 	{"xm.T", "T"},
 	{"ym.T", "T"},
+	// instantiations of one generic type: different, mutually non-assignable types that share one
+	// declaration (and one hint)
+	{"K[int]", "K"},
+	{"K[string]", "K"},
+	{"K[N]", "K"},
+	{"L[string]", "L"},
 }
 
-const e2eLocal = 7 // pool entries below this index need no import
+const e2eGeneric = 9 // pool entries from this index on are instantiations of the generic types K and L
+
+const e2eLocal = 7 // pool entries e2eLocal and e2eLocal+1 need an import
 
 var e2eModelFiles = map[string]string{
 	"x/model/m.go": "package model\n\ntype T int\n",
@@ -537,8 +548,10 @@ var e2ePrefixes = []string{"deriveEqual", "deriveCompare"}
 
 type e2ePkg struct {
 	id       int
-	ntypes   int  // pool restricted to the first ntypes entries
-	cur      bool // type indices ntypes..2*ntypes-1 are the one-argument (curried) calls over the same types
+	ntypes   int   // number of types of the package: the first ntypes pool entries, or
+	tys      []int // (if not nil, len(tys) == ntypes) these pool entries, in this order
+	resKind  int   // how the user defines the derive-like names he calls (resKinds)
+	cur      bool  // type indices ntypes..2*ntypes-1 are the one-argument (curried) calls over the same types
 	reserved []string
 	calls    []Call
 	class    string
@@ -547,13 +560,16 @@ type e2ePkg struct {
 func (p *e2ePkg) source() string {
 	var b strings.Builder
 	b.WriteString("package p\n\n")
-	if p.ntypes > e2eLocal {
+	if p.uses(e2eLocal) {
 		b.WriteString("import xm \"p/x/model\"\n")
 	}
-	if p.ntypes > e2eLocal+1 {
+	if p.uses(e2eLocal + 1) {
 		b.WriteString("import ym \"p/y/model\"\n")
 	}
 	b.WriteString("\ntype N int\n\ntype F float64\n\n")
+	if p.usesGeneric() {
+		b.WriteString("type K[T comparable] int\n\ntype L[T any] []T\n\n")
+	}
 	if !p.split() {
 		b.WriteString(p.reservedDecls())
 	}
@@ -562,7 +578,7 @@ func (p *e2ePkg) source() string {
 		if i > 0 {
 			b.WriteString(", ")
 		}
-		fmt.Fprintf(&b, "x%d, y%d %s", i, i, e2ePool[i].goType)
+		fmt.Fprintf(&b, "x%d, y%d %s", i, i, p.ty(i).goType)
 	}
 	b.WriteString(") {\n")
 	for ci, c := range p.calls {
@@ -585,11 +601,22 @@ func (p *e2ePkg) source() string {
 // every second package keeps the user's derive-like functions and their calls in a later file (z.go)
 func (p *e2ePkg) split() bool { return p.id%2 == 1 && len(p.reserved) > 0 }
 
+// the ways in which the user can define a derive-like name that he calls (all of them are "names the user
+// calls elsewhere"): a function declaration, a package level variable of function type, a type of the
+// package used in a conversion, a local variable of function type
+var resKinds = []string{"func", "funcvar", "type", "local"}
+
 func (p *e2ePkg) reservedDecls() string {
 	var b strings.Builder
 	for _, r := range p.reserved {
-		// a user function with a derive-like name that the user calls: its name is reserved
-		fmt.Fprintf(&b, "func %s(a, b int) int { return a + b }\n\n", r)
+		switch resKinds[p.resKind] {
+		case "func":
+			fmt.Fprintf(&b, "func %s(a, b int) int { return a + b }\n\n", r)
+		case "funcvar":
+			fmt.Fprintf(&b, "var %s = func(a, b int) int { return a + b }\n\n", r)
+		case "type":
+			fmt.Fprintf(&b, "type %s int\n\n", r)
+		}
 	}
 	return b.String()
 }
@@ -597,9 +624,59 @@ func (p *e2ePkg) reservedDecls() string {
 func (p *e2ePkg) reservedCalls() string {
 	var b strings.Builder
 	for _, r := range p.reserved {
-		fmt.Fprintf(&b, "\t_ = %s(1, 2)\n", r)
+		switch resKinds[p.resKind] {
+		case "type":
+			fmt.Fprintf(&b, "\t_ = %s(1)\n", r)
+		case "local":
+			fmt.Fprintf(&b, "\t%s := func(a, b int) int { return a + b }\n\t_ = %s(1, 2)\n", r, r)
+		default:
+			fmt.Fprintf(&b, "\t_ = %s(1, 2)\n", r)
+		}
 	}
 	return b.String()
+}
+
+// ty: the i-th type of the package
+func (p *e2ePkg) ty(i int) e2eType {
+	if p.tys != nil {
+		return e2ePool[p.tys[i]]
+	}
+	return e2ePool[i]
+}
+
+// local: the index in the package of the pool entry g (-1: not a type of the package)
+func (p *e2ePkg) local(g int) int {
+	if p.tys == nil {
+		if g < p.ntypes {
+			return g
+		}
+		return -1
+	}
+	for i, x := range p.tys {
+		if x == g {
+			return i
+		}
+	}
+	return -1
+}
+
+// glob: the pool entry of the i-th type of the package
+func (p *e2ePkg) glob(i int) int {
+	if p.tys != nil {
+		return p.tys[i]
+	}
+	return i
+}
+
+func (p *e2ePkg) uses(g int) bool { return p.local(g) >= 0 }
+
+func (p *e2ePkg) usesGeneric() bool {
+	for g := e2eGeneric; g < len(e2ePool); g++ {
+		if p.uses(g) {
+			return true
+		}
+	}
+	return false
 }
 
 func (p *e2ePkg) sourceZ() string {
@@ -618,10 +695,10 @@ func (p *e2ePkg) ctxSexp() string {
 	var b strings.Builder
 	b.WriteString("(ctx (hints")
 	for i := 0; i < p.nvirt(); i++ {
-		if e2ePool[i%p.ntypes].hint == "" {
+		if p.ty(i%p.ntypes).hint == "" {
 			b.WriteString(" ()")
 		} else {
-			b.WriteString(" (" + e2ePool[i%p.ntypes].hint + ")")
+			b.WriteString(" (" + p.ty(i%p.ntypes).hint + ")")
 		}
 	}
 	b.WriteString(") (teq")
@@ -746,14 +823,14 @@ func pluginOf(name string) int {
 
 func runE2E(cfg hx.Config, meta *hx.Meta) error {
 	r := hx.NewRand(cfg.Seed ^ 0xC11)
-	nSmall, nLarge, vetEvery := 120, 60, 6
+	nSmall, nGeneric, nLarge, vetEvery := 120, 48, 60, 6
 	if cfg.Tier == "thorough" {
-		nSmall, nLarge, vetEvery = 1400, 600, 4
+		nSmall, nGeneric, nLarge, vetEvery = 1400, 500, 600, 4
 	}
 	var pkgs []*e2ePkg
-	names := func(p int) []string {
+	names := func(p int, hint string) []string {
 		pre := e2ePrefixes[p]
-		return []string{pre, pre + "_", pre + "_N"}
+		return []string{pre, pre + "_", pre + "_" + hint}
 	}
 	// corpus sequences also run end to end (types 0..2 of the e2e pool, same names except _A -> _N)
 	if seqs, err := readCorpus(cfg.Corpus); err == nil {
@@ -777,12 +854,24 @@ func runE2E(cfg hx.Config, meta *hx.Meta) error {
 		}
 	}
 	// the S1 space, sampled: up to 4 (thorough 5) calls over 2 plugins x 3 names x 3 types
-	for i := 0; i < nSmall; i++ {
+	// and the same space over instantiations of one generic type (K[int], K[string]: one declaration, one
+	// hint, two types) and an ordinary type
+	for i := 0; i < nSmall+nGeneric; i++ {
 		k := 2 + r.Intn(3)
 		if cfg.Tier == "thorough" {
 			k = 2 + r.Intn(4)
 		}
 		p := &e2ePkg{ntypes: 3, class: fmt.Sprintf("small/k=%d", k)}
+		hint := "N"
+		if i >= nSmall {
+			p.class = fmt.Sprintf("generic/k=%d", k)
+			p.tys = [][]int{
+				{e2eGeneric, e2eGeneric + 1, 0},
+				{e2eGeneric + 1, e2eGeneric + 2, e2eGeneric},
+				{e2eGeneric + 3, e2eGeneric, e2eGeneric + 1},
+			}[i%3]
+			hint = "K"
+		}
 		firstCand := false
 		bare := false
 		switch r.Intn(4) {
@@ -791,7 +880,7 @@ func runE2E(cfg hx.Config, meta *hx.Meta) error {
 			p.reserved = []string{"deriveCompare", "deriveEqual"}
 			bare = true
 		case 0:
-			p.reserved = []string{"deriveEqual_i", "deriveEqual_1", "deriveCompare_i", "deriveCompare_N2"}
+			p.reserved = []string{"deriveEqual_i", "deriveEqual_1", "deriveCompare_i", "deriveCompare_" + hint + "2"}
 		case 1:
 			// the user's functions sit on the first fresh-name candidate; no derive call is spelled that way
 			p.reserved = []string{"deriveCompare_", "deriveEqual_"}
@@ -799,7 +888,7 @@ func runE2E(cfg hx.Config, meta *hx.Meta) error {
 		}
 		for j := 0; j < k; j++ {
 			pl := r.Intn(2)
-			ns := names(pl)
+			ns := names(pl, hint)
 			if firstCand {
 				ns = []string{ns[0], ns[2]}
 			}
@@ -813,9 +902,29 @@ func runE2E(cfg hx.Config, meta *hx.Meta) error {
 	// larger random packages with injected collisions
 	for i := 0; i < nLarge; i++ {
 		k := 6 + r.Intn(14)
-		nt := 4 + r.Intn(len(e2ePool)-3)
+		nt := 4 + r.Intn(e2eGeneric-3)
 		p := &e2ePkg{ntypes: nt, class: "large", cur: i%2 == 1}
+		if i%3 == 2 {
+			// the generic instantiations first, then the ordinary types
+			p.class = "large-generic"
+			for g := e2eGeneric; g < len(e2ePool); g++ {
+				p.tys = append(p.tys, g)
+			}
+			for g := 0; len(p.tys) < nt; g++ {
+				if e2ePool[g].goType == "[]string" {
+					continue // assignable to and from L[string]: not a pool of pairwise non-assignable types
+				}
+				p.tys = append(p.tys, g)
+			}
+			p.tys = p.tys[:nt]
+		}
 		suffixes := []string{"", "_", "_N", "_i", "_in", "_int", "_1", "_2", "X", "Y", "_s", "_N2"}
+		candidates := []string{"_3", "_N3", "_int4", "_st"}
+		if p.tys != nil {
+			// the fresh-name candidates of the generic types
+			suffixes = []string{"", "_", "_K", "_L", "_K1", "_int", "_1", "_2", "X", "Y", "_s", "_K2"}
+			candidates = []string{"_3", "_K3", "_L2", "_L3"}
+		}
 		var resv []string
 		if r.Bool() {
 			for _, s := range []string{"_", "_N", "_i", "_1", "_s", "Z"} {
@@ -824,7 +933,7 @@ func runE2E(cfg hx.Config, meta *hx.Meta) error {
 				}
 			}
 			// reserved names that collide with fresh-name candidates (never user-spelled derive calls)
-			for _, s := range []string{"_3", "_N3", "_int4", "_st"} {
+			for _, s := range candidates {
 				if r.Intn(2) == 0 {
 					resv = append(resv, hx.Pick(r, e2ePrefixes)+s)
 				}
@@ -861,6 +970,26 @@ func runE2E(cfg hx.Config, meta *hx.Meta) error {
 		if p.reserved == nil {
 			p.reserved = []string{}
 		}
+		// split() alternates on id: both layouts see every kind of definition
+		p.resKind = (i / 2) % len(resKinds)
+		if len(p.reserved) > 0 {
+			meta.Count("e2e/user names defined as " + resKinds[p.resKind])
+		}
+	}
+	// the quantifier of the property: the types of a package are pairwise non-assignable (go/types decides)
+	assignable, err := e2ePoolMatrix(cfg)
+	if err != nil {
+		return err
+	}
+	for _, p := range pkgs {
+		for i := 0; i < p.ntypes; i++ {
+			for j := 0; j < p.ntypes; j++ {
+				if gi, gj := p.glob(i), p.glob(j); assignable[gi][gj] != (i == j) {
+					return fmt.Errorf("c11 harness: package %d (%s): %s and %s are not pairwise non-assignable",
+						p.id, p.class, e2ePool[gi].goType, e2ePool[gj].goType)
+				}
+			}
+		}
 	}
 	lines := make([]string, len(pkgs))
 	var runs int
@@ -896,6 +1025,46 @@ func runE2E(cfg hx.Config, meta *hx.Meta) error {
 		}
 	}
 	return nil
+}
+
+// e2ePoolMatrix: eq (assignability of the defaulted types, as typesmap.go documents it) between the pool
+// entries, computed by go/types on a package that declares a variable of every pool type.
+func e2ePoolMatrix(cfg hx.Config) ([][]bool, error) {
+	dir := filepath.Join(cfg.Work, "e2e-pool")
+	if err := os.MkdirAll(dir, 0o755); err != nil {
+		return nil, err
+	}
+	defer os.RemoveAll(dir)
+	var b strings.Builder
+	b.WriteString("package p\n\nimport xm \"p/x/model\"\nimport ym \"p/y/model\"\n\ntype N int\n\ntype K[T comparable] int\n\ntype L[T any] []T\n\n")
+	for i, t := range e2ePool {
+		fmt.Fprintf(&b, "var v%d %s\n", i, t.goType)
+	}
+	if err := os.WriteFile(filepath.Join(dir, "pool.go"), []byte(b.String()), 0o644); err != nil {
+		return nil, err
+	}
+	info, afs, _, err := checkTypes(dir, []string{"pool.go"})
+	if err != nil {
+		return nil, err
+	}
+	var typs []types.Type
+	for _, d := range afs[0].Decls {
+		if gd, ok := d.(*ast.GenDecl); ok && gd.Tok == token.VAR {
+			for _, sp := range gd.Specs {
+				typs = append(typs, info.Types[sp.(*ast.ValueSpec).Type].Type)
+			}
+		}
+	}
+	if len(typs) != len(e2ePool) {
+		return nil, fmt.Errorf("c11 harness: pool package: %d variables for %d pool entries", len(typs), len(e2ePool))
+	}
+	m := make([][]bool, len(typs))
+	for i, x := range typs {
+		for _, y := range typs {
+			m[i] = append(m[i], eqSpec([]types.Type{x, x}, []types.Type{y, y}))
+		}
+	}
+	return m, nil
 }
 
 func uniq(l []string) []string {
@@ -945,7 +1114,7 @@ func e2eRun(cfg hx.Config, meta *hx.Meta, p *e2ePkg, src, dir string, a, d, vet 
 	if p.split() {
 		files["z.go"] = p.sourceZ()
 	}
-	if p.ntypes > e2eLocal {
+	if p.uses(e2eLocal) || p.uses(e2eLocal+1) {
 		for k, v := range e2eModelFiles {
 			files[k] = v
 		}
@@ -1074,16 +1243,16 @@ func e2eRun(cfg hx.Config, meta *hx.Meta, p *e2ePkg, src, dir string, a, d, vet 
 			continue
 		}
 		ts := types.ExprString(fd.Type.Params.List[0].Type)
-		ti, ok := e2eTypeIndex[ts]
-		if !ok {
-			ti = -1
+		ti := -1
+		if g, ok := e2eTypeIndex[ts]; ok {
+			ti = p.local(g)
 		}
 		if nt, isNamed := info.Types[fd.Type.Params.List[0].Type].Type.(*types.Named); isNamed && nt.Obj().Pkg() != nil {
 			switch nt.Obj().Pkg().Path() {
 			case "p/x/model":
-				ti = e2eLocal
+				ti = p.local(e2eLocal)
 			case "p/y/model":
-				ti = e2eLocal + 1
+				ti = p.local(e2eLocal + 1)
 			}
 		}
 		nparams := 0
